@@ -1,11 +1,12 @@
 #!/bin/sh
-# fifth refactoring experiment (small single-function commits): (re)creates /tmp/rw5/<Ux><n> from /tmp/ref5/<Ux>/<n>/patch.diff and runs all 20 quick checks on each (one process per tree)
-mkdir -p /tmp/ref5/out /tmp/rw5
-for d in ${DIRS:-$(ls -d /tmp/ref5/V?/[1-8])}; do g=$(basename $(dirname $d)); n=$(basename $d); t=/tmp/rw5/$g$n
+# refactoring experiment on the stored patches: (re)creates /tmp/rw5/<id> from /verif/refactor/<id>/patch.diff and runs all 20 quick checks on each (one process per tree)
+mkdir -p /tmp/rw5/out
+for d in ${DIRS:-$(ls -d /verif/refactor/*/)}; do id=$(basename $d); t=/tmp/rw5/$id
   [ -f $d/patch.diff ] || continue
   [ -d $t ] || git -C /repo worktree add -q --detach $t HEAD
-  git -C $t checkout -q -- . && git -C $t apply $d/patch.diff || echo "FAIL apply $g$n"
+  git -C $t checkout -q --detach $(git -C /repo rev-parse HEAD) 2>/dev/null
+  git -C $t checkout -q -- . && git -C $t apply $d/patch.diff || echo "FAIL apply $id"
 done
-ls /tmp/rw5 | xargs -P ${P:-6} -I{} sh -c 'COCLS_CACHE_KEEP=250 COCLS_REPO=/tmp/rw5/{} COCLS_NO_EVIDENCE=1 COCLS_NO_SELFTEST=1 python3 /verif/engine/check.py --all --tier quick 2>&1 | awk -v T={} "/^=== C.. begin/{c=\$2} /violation|BROKEN/{print T\" \"c\": \"substr(\$0,1,${W:-300})}" > /tmp/ref5/out/{}.txt 2>&1'
-cat /tmp/ref5/out/*.txt
-echo "alarming (patch,check) pairs: $(cat /tmp/ref5/out/*.txt | cut -d: -f1 | sort -u | wc -l)"
+ls -d /tmp/rw5/V* | xargs -n1 basename | xargs -P ${P:-6} -I{} sh -c 'COCLS_CACHE_KEEP=250 COCLS_REPO=/tmp/rw5/{} COCLS_NO_EVIDENCE=1 COCLS_NO_SELFTEST=1 python3 /verif/engine/check.py --all --tier quick 2>&1 | awk -v T={} "/^=== C.. begin/{c=\$2} /violation|BROKEN/{print T\" \"c\": \"substr(\$0,1,${W:-300})}" > /tmp/rw5/out/{}.txt 2>&1'
+cat /tmp/rw5/out/*.txt
+echo "alarming (patch,check) pairs: $(cat /tmp/rw5/out/*.txt | grep -v BROKEN | cut -d: -f1 | sort -u | wc -l); analysis-broken pairs: $(cat /tmp/rw5/out/*.txt | grep BROKEN | cut -d: -f1 | sort -u | wc -l)"
